@@ -205,6 +205,14 @@ class Check:
             self.coverage['theorems'] = sorted(n[len(ns) + 1:] for n in thms)
             self.coverage['axioms_used'] = sorted({a for v in thms.values() for a in v})
         self.coverage['checker_cmd'] = f'cd lean && lake build {" ".join(targets)} && lake env lean .lake/audit/Audit_{ns.replace(".", "_")}.lean'
+        if ok and self.tier == 'thorough':
+            # independent re-check of the compiled proof modules by the toolchain's leanchecker (replays every declaration in the kernel)
+            mods = [t for t in targets if not t.startswith('SarpyModel.Drivers')]
+            rc, out, err = sh(['lake', 'env', 'leanchecker'] + mods, cwd=LEAN, timeout=3000)
+            self.coverage['leanchecker'] = {'modules': mods, 'ok': rc == 0}
+            self.coverage['checker_cmd'] += ' && lake env leanchecker ' + ' '.join(mods)
+            if rc != 0:
+                broken.append('leanchecker rejects ' + ' '.join(mods) + ': ' + (out + err)[-400:])
         if gen_info is not None:
             self.coverage['translator'] = gen_info
         return broken
